@@ -1,9 +1,1120 @@
-//! C03 — (stub; not built yet)
+//! C03 — Rcb/Rib parts are the leaves of a recursive axis-aligned bisection.
+//!
+//! ops (floats as hex bit patterns, points point-major):
+//! * `rcb <D> <iter> <tol f64> <threads> <plen> <nw> <w…> <np> <x f64 … np·D>`
+//!   out: `ok <ids>` | `lenmismatch` | `panic …` | `hang`
+//! * `rib <D> <iter> <tol f64> <threads> <n> <w…> <orig f64 … n·D> <rot f64 … n·D>`
+//!   (`rot` = the points in the frame Rib builds, from the `obb_frame` hook in a 1-thread pool)
+//!   out: `ok <ids>` | `frame-mismatch` | `lenmismatch` | `panic …` | `hang`
+//! * `reorder <D> <coord> <pivot> <n> <w…> <x f32 … n·D>`
+//!   out: `ok <split> | <item ids in final order>` | `soa-mismatch` | `panic …`
+//! * `split <D> <coord> <tol f64> <min f32> <max f32> <n> <w…> <x f32 … n·D>`
+//!   out: `ok <split> <weight_left> <split_pos f32> | <item ids in final order>` | `panic …` | `hang`
+//!
+//! Oracle (independent of the model): the ids, shifted by some offset, are leaf codes of a
+//! binary tree of depth `iter` whose level `d` separates STRICTLY on axis `d % D` (f32
+//! coordinates); equal points share a part; ids < 2^iter. `reorder`/`split`: the result is a
+//! permutation that is a strict partition around the pivot / strictly separated.
 
 use crate::common::*;
+use coupe::Partition as _;
+use coupe::PointND;
+use std::collections::HashMap;
 
-pub fn generate(_ctx: &mut Ctx) {}
+const TOLS: [f64; 4] = [0.0, 0.01, 0.05, 0.5];
+const THREADS: [usize; 3] = [1, 4, 16];
+/// the tree oracle enumerates 2^iter offsets; beyond this depth it is skipped (never generated)
+const MAX_ORACLE_ITER: usize = 16;
+
+// ------------------------------------------------------------------ op lines
+
+enum Op {
+    Rcb { d: usize, iter: usize, tol: f64, threads: usize, plen: usize, ws: Vec<i64>, np: usize, xs: Vec<f64> },
+    Rib { d: usize, iter: usize, tol: f64, threads: usize, n: usize, ws: Vec<i64>, orig: Vec<f64>, rot: Vec<f64> },
+    Reorder { d: usize, coord: usize, pivot: usize, n: usize, ws: Vec<i64>, xs: Vec<f32> },
+    Split { d: usize, coord: usize, tol: f64, min: f32, max: f32, n: usize, ws: Vec<i64>, xs: Vec<f32> },
+}
+
+fn h64(x: f64) -> String {
+    format!("{:x}", x.to_bits())
+}
+
+fn h32(x: f32) -> String {
+    format!("{:x}", x.to_bits())
+}
+
+fn format_rcb(d: usize, iter: usize, tol: f64, threads: usize, plen: usize, ws: &[i64], np: usize, xs: &[f64]) -> String {
+    let mut t: Vec<String> = vec!["rcb".into(), d.to_string(), iter.to_string(), h64(tol), threads.to_string()];
+    t.push(plen.to_string());
+    t.push(ws.len().to_string());
+    t.extend(ws.iter().map(|w| w.to_string()));
+    t.push(np.to_string());
+    t.extend(xs.iter().map(|x| h64(*x)));
+    t.join(" ")
+}
+
+fn format_rib(d: usize, iter: usize, tol: f64, threads: usize, ws: &[i64], orig: &[f64], rot: &[f64]) -> String {
+    let mut t: Vec<String> = vec!["rib".into(), d.to_string(), iter.to_string(), h64(tol), threads.to_string()];
+    t.push(ws.len().to_string());
+    t.extend(ws.iter().map(|w| w.to_string()));
+    t.extend(orig.iter().map(|x| h64(*x)));
+    t.extend(rot.iter().map(|x| h64(*x)));
+    t.join(" ")
+}
+
+fn format_reorder(d: usize, coord: usize, pivot: usize, ws: &[i64], xs: &[f32]) -> String {
+    let mut t: Vec<String> = vec!["reorder".into(), d.to_string(), coord.to_string(), pivot.to_string()];
+    t.push(ws.len().to_string());
+    t.extend(ws.iter().map(|w| w.to_string()));
+    t.extend(xs.iter().map(|x| h32(*x)));
+    t.join(" ")
+}
+
+fn format_split(d: usize, coord: usize, tol: f64, min: f32, max: f32, ws: &[i64], xs: &[f32]) -> String {
+    let mut t: Vec<String> = vec!["split".into(), d.to_string(), coord.to_string(), h64(tol), h32(min), h32(max)];
+    t.push(ws.len().to_string());
+    t.extend(ws.iter().map(|w| w.to_string()));
+    t.extend(xs.iter().map(|x| h32(*x)));
+    t.join(" ")
+}
+
+struct Toks<'a>(std::str::SplitWhitespace<'a>);
+
+impl<'a> Toks<'a> {
+    fn word(&mut self) -> Option<&'a str> {
+        self.0.next()
+    }
+    fn nat(&mut self) -> Option<usize> {
+        self.0.next()?.parse().ok()
+    }
+    fn f64(&mut self) -> Option<f64> {
+        Some(f64::from_bits(u64::from_str_radix(self.0.next()?, 16).ok()?))
+    }
+    fn f32(&mut self) -> Option<f32> {
+        Some(f32::from_bits(u32::from_str_radix(self.0.next()?, 16).ok()?))
+    }
+    fn ints(&mut self, n: usize) -> Option<Vec<i64>> {
+        let mut v = Vec::new();
+        for _ in 0..n {
+            v.push(self.0.next()?.parse().ok()?);
+        }
+        Some(v)
+    }
+    fn f64s(&mut self, n: usize) -> Option<Vec<f64>> {
+        let mut v = Vec::new();
+        for _ in 0..n {
+            v.push(self.f64()?);
+        }
+        Some(v)
+    }
+    fn f32s(&mut self, n: usize) -> Option<Vec<f32>> {
+        let mut v = Vec::new();
+        for _ in 0..n {
+            v.push(self.f32()?);
+        }
+        Some(v)
+    }
+    fn end(&mut self) -> Option<()> {
+        if self.0.next().is_none() {
+            Some(())
+        } else {
+            None
+        }
+    }
+}
+
+fn parse_op(op: &str) -> Option<Op> {
+    let mut t = Toks(op.split_whitespace());
+    let kind = t.word()?;
+    let d = t.nat()?;
+    if d != 2 && d != 3 {
+        return None;
+    }
+    match kind {
+        "rcb" => {
+            let iter = t.nat()?;
+            let tol = t.f64()?;
+            let threads = t.nat()?;
+            let plen = t.nat()?;
+            let nw = t.nat()?;
+            let ws = t.ints(nw)?;
+            let np = t.nat()?;
+            let xs = t.f64s(np.checked_mul(d)?)?;
+            t.end()?;
+            Some(Op::Rcb { d, iter, tol, threads, plen, ws, np, xs })
+        }
+        "rib" => {
+            let iter = t.nat()?;
+            let tol = t.f64()?;
+            let threads = t.nat()?;
+            let n = t.nat()?;
+            let ws = t.ints(n)?;
+            let orig = t.f64s(n.checked_mul(d)?)?;
+            let rot = t.f64s(n * d)?;
+            t.end()?;
+            Some(Op::Rib { d, iter, tol, threads, n, ws, orig, rot })
+        }
+        "reorder" => {
+            let coord = t.nat()?;
+            let pivot = t.nat()?;
+            let n = t.nat()?;
+            let ws = t.ints(n)?;
+            let xs = t.f32s(n.checked_mul(d)?)?;
+            t.end()?;
+            if coord >= d {
+                return None;
+            }
+            Some(Op::Reorder { d, coord, pivot, n, ws, xs })
+        }
+        "split" => {
+            let coord = t.nat()?;
+            let tol = t.f64()?;
+            let min = t.f32()?;
+            let max = t.f32()?;
+            let n = t.nat()?;
+            let ws = t.ints(n)?;
+            let xs = t.f32s(n.checked_mul(d)?)?;
+            t.end()?;
+            if coord >= d {
+                return None;
+            }
+            Some(Op::Split { d, coord, tol, min, max, n, ws, xs })
+        }
+        _ => None,
+    }
+}
+
+// ------------------------------------------------------------------ running the implementation
+
+/// what `partition` returned, without the (non-`'static`-friendly) error type
+enum St {
+    Ok,
+    LenMismatch,
+    Other(String),
+}
+
+fn status(r: Result<(), coupe::Error>) -> St {
+    match r {
+        Ok(()) => St::Ok,
+        Err(coupe::Error::InputLenMismatch { .. }) => St::LenMismatch,
+        Err(e) => St::Other(format!("{:?}", e)),
+    }
+}
+
+fn to_points<const D: usize>(xs: &[f64]) -> Vec<PointND<D>> {
+    xs.chunks_exact(D).map(|c| PointND::<D>::from_column_slice(c)).collect()
+}
+
+fn pool_size(threads: usize) -> usize {
+    threads.clamp(1, 64)
+}
+
+fn run_rcb<const D: usize>(
+    iter: usize,
+    tol: f64,
+    threads: usize,
+    plen: usize,
+    ws: Vec<i64>,
+    xs: Vec<f64>,
+) -> Caught<(St, Vec<usize>)> {
+    catch_timeout(30, move || {
+        let points: Vec<PointND<D>> = to_points::<D>(&xs);
+        let mut ids = vec![usize::MAX; plen];
+        let r = with_pool(pool_size(threads), || {
+            coupe::Rcb { iter_count: iter, tolerance: tol }.partition(&mut ids, (points, ws))
+        });
+        (status(r), ids)
+    })
+}
+
+/// The frame hook in a 1-thread pool: the points as Rib's inner Rcb sees them (flat, point-major).
+/// `Ok(None)` for no points.
+fn frame_2(xs: &[f64]) -> Caught<Option<Vec<f64>>> {
+    let points = to_points::<2>(xs);
+    catch(move || {
+        with_pool(1, || coupe::verif::geometry::obb_frame::<2>(&points))
+            .map(|(m, _)| m.iter().flat_map(|p| p.iter().copied().collect::<Vec<f64>>()).collect())
+    })
+}
+
+fn frame_3(xs: &[f64]) -> Caught<Option<Vec<f64>>> {
+    let points = to_points::<3>(xs);
+    catch(move || {
+        with_pool(1, || coupe::verif::geometry::obb_frame::<3>(&points))
+            .map(|(m, _)| m.iter().flat_map(|p| p.iter().copied().collect::<Vec<f64>>()).collect())
+    })
+}
+
+fn frame(d: usize, xs: &[f64]) -> Caught<Option<Vec<f64>>> {
+    if d == 2 {
+        frame_2(xs)
+    } else {
+        frame_3(xs)
+    }
+}
+
+fn run_rib_2(iter: usize, tol: f64, threads: usize, ws: Vec<i64>, xs: Vec<f64>) -> Caught<(St, Vec<usize>)> {
+    catch_timeout(30, move || {
+        let points = to_points::<2>(&xs);
+        let mut ids = vec![usize::MAX; ws.len()];
+        let r = with_pool(pool_size(threads), || {
+            coupe::Rib { iter_count: iter, tolerance: tol }.partition(&mut ids, (&points[..], ws))
+        });
+        (status(r), ids)
+    })
+}
+
+fn run_rib_3(iter: usize, tol: f64, threads: usize, ws: Vec<i64>, xs: Vec<f64>) -> Caught<(St, Vec<usize>)> {
+    catch_timeout(30, move || {
+        let points = to_points::<3>(&xs);
+        let mut ids = vec![usize::MAX; ws.len()];
+        let r = with_pool(pool_size(threads), || {
+            coupe::Rib { iter_count: iter, tolerance: tol }.partition(&mut ids, (&points[..], ws))
+        });
+        (status(r), ids)
+    })
+}
+
+fn run_rib(d: usize, iter: usize, tol: f64, threads: usize, ws: &[i64], xs: &[f64]) -> Caught<(St, Vec<usize>)> {
+    if d == 2 {
+        run_rib_2(iter, tol, threads, ws.to_vec(), xs.to_vec())
+    } else {
+        run_rib_3(iter, tol, threads, ws.to_vec(), xs.to_vec())
+    }
+}
+
+/// point-major flat array → structure of arrays
+fn soa<const D: usize>(xs: &[f32]) -> [Vec<f32>; D] {
+    std::array::from_fn(|c| xs.chunks_exact(D).map(|p| p[c]).collect())
+}
+
+type ReorderOut = (Vec<Vec<f32>>, Vec<i64>, Vec<usize>, usize);
+
+fn run_reorder<const D: usize>(xs: &[f32], ws: &[i64], pivot: usize, coord: usize) -> Caught<ReorderOut> {
+    let coords = soa::<D>(xs);
+    let ws = ws.to_vec();
+    catch(move || {
+        let (c, w, ids, split) = coupe::verif::rcb::reorder_split_scalar::<D>(coords, ws, pivot, coord);
+        (c.to_vec(), w, ids, split)
+    })
+}
+
+type SplitOut = (Vec<usize>, usize, i64, f32);
+
+fn run_split<const D: usize>(xs: &[f32], ws: &[i64], coord: usize, tol: f64, min: f32, max: f32) -> Caught<SplitOut> {
+    let coords = soa::<D>(xs);
+    let ws = ws.to_vec();
+    catch_timeout(30, move || coupe::verif::rcb::par_rcb_split::<D>(coords, ws, coord, tol, min, max))
+}
+
+// ------------------------------------------------------------------ oracle
+
+fn is_permutation(ids: &[usize], n: usize) -> bool {
+    if ids.len() != n {
+        return false;
+    }
+    let mut seen = vec![false; n];
+    for &i in ids {
+        if i >= n || seen[i] {
+            return false;
+        }
+        seen[i] = true;
+    }
+    true
+}
+
+/// One candidate tree: leaf index of point i = ids[i] + o. Level by level, every node (= set of
+/// points sharing the first `lvl` path bits) must have max(low side) < min(high side) on axis
+/// `lvl % d`. Returns the first failing node.
+fn tree_fails(d: usize, k: usize, x: &[f32], ids: &[usize], o: usize) -> Option<String> {
+    let n = ids.len();
+    for lvl in 0..k {
+        let axis = lvl % d;
+        let nodes = 1usize << lvl;
+        // (max of the low side, its point), (min of the high side, its point)
+        let mut lo: Vec<Option<(f32, usize)>> = vec![None; nodes];
+        let mut hi: Vec<Option<(f32, usize)>> = vec![None; nodes];
+        for i in 0..n {
+            let code = ids[i] + o;
+            let node = code >> (k - lvl);
+            let high = (code >> (k - 1 - lvl)) & 1 == 1;
+            let v = x[i * d + axis];
+            if high {
+                match hi[node] {
+                    Some((m, _)) if m <= v => {}
+                    _ => hi[node] = Some((v, i)),
+                }
+            } else {
+                match lo[node] {
+                    Some((m, _)) if m >= v => {}
+                    _ => lo[node] = Some((v, i)),
+                }
+            }
+        }
+        for node in 0..nodes {
+            if let (Some((a, i)), Some((b, j))) = (lo[node], hi[node]) {
+                if !(a < b) {
+                    return Some(format!(
+                        "offset {} level {} node {} axis {}: low-side point {} has {:?} (bits {:x}) >= high-side point {} with {:?} (bits {:x})",
+                        o, lvl, node, axis, i, a, a.to_bits(), j, b, b.to_bits()
+                    ));
+                }
+            }
+        }
+    }
+    None
+}
+
+/// The property on an `ok` outcome: `x` = the f32 coordinates the bisection works on.
+fn bisection_oracle(ctx: &mut Ctx, d: usize, k: usize, x: &[f32], ids: &[usize]) -> Option<(String, String)> {
+    let n = ids.len();
+    if x.len() != n * d {
+        return Some(("rcb-ids-len".into(), format!("{} ids for {} points", n, x.len() / d)));
+    }
+    if n == 0 {
+        return None;
+    }
+    if k > MAX_ORACLE_ITER {
+        ctx.count("oracle_skipped_large_iter");
+        return None;
+    }
+    if x.iter().any(|v| !v.is_finite()) {
+        ctx.count("oracle_skipped_nonfinite");
+        return None;
+    }
+    let leaves = 1usize << k;
+    let max_id = *ids.iter().max().unwrap();
+    if max_id >= leaves {
+        return Some(("rcb-id-out-of-range".into(), format!("id {} with iter_count {}", max_id, k)));
+    }
+    // equal points (numerically: -0.0 == 0.0) share a part
+    let mut seen: HashMap<Vec<u32>, usize> = HashMap::new();
+    for i in 0..n {
+        let key: Vec<u32> =
+            x[i * d..(i + 1) * d].iter().map(|v| if *v == 0.0 { 0u32 } else { v.to_bits() }).collect();
+        if let Some(&j) = seen.get(&key) {
+            if ids[i] != ids[j] {
+                return Some((
+                    "rcb-same-point-split".into(),
+                    format!("points {} and {} are equal as f32 but have parts {} and {}", j, i, ids[j], ids[i]),
+                ));
+            }
+        } else {
+            seen.insert(key, i);
+        }
+    }
+    // some offset must give a strict bisection tree
+    let mut first = None;
+    for o in 0..=(leaves - 1 - max_id) {
+        match tree_fails(d, k, x, ids, o) {
+            None => {
+                if o > 0 {
+                    ctx.count("tree_offset_nonzero");
+                }
+                return None;
+            }
+            Some(w) => {
+                if first.is_none() {
+                    first = Some(w);
+                }
+            }
+        }
+    }
+    Some(("rcb-not-a-bisection".into(), first.unwrap_or_default()))
+}
+
+fn ok_line(ids: &[usize]) -> String {
+    if ids.is_empty() {
+        "ok".to_string()
+    } else {
+        format!("ok {}", join(ids))
+    }
+}
+
+/// Canonical output + verdict of an Rcb/Rib run. `x` = f32 coordinates seen by the bisection.
+#[allow(clippy::too_many_arguments)]
+fn judge_partition(
+    ctx: &mut Ctx,
+    res: Caught<(St, Vec<usize>)>,
+    d: usize,
+    iter: usize,
+    lengths_ok: bool,
+    finite: bool,
+    x: &[f32],
+) -> (String, Option<(String, String)>, bool) {
+    match res {
+        Caught::Ok((St::Ok, ids)) => {
+            let v = if !lengths_ok {
+                Some(("rcb-len-mismatch-ok".to_string(), "Ok despite a length mismatch".to_string()))
+            } else {
+                bisection_oracle(ctx, d, iter, x, &ids)
+            };
+            (ok_line(&ids), v, lengths_ok)
+        }
+        Caught::Ok((St::LenMismatch, _)) => {
+            let v = if lengths_ok {
+                Some(("rcb-spurious-lenmismatch".to_string(), "InputLenMismatch on matching lengths".to_string()))
+            } else {
+                None
+            };
+            ("lenmismatch".to_string(), v, false)
+        }
+        Caught::Ok((St::Other(e), _)) => (format!("err {}", e), Some(("rcb-unexpected-error".into(), e)), false),
+        Caught::Panic(m) => {
+            let v = if finite { Some((panic_sig(&m), m.clone())) } else { None };
+            (format!("panic {}", m), v, false)
+        }
+        Caught::Hang => {
+            let v = if finite { Some(("hang".to_string(), "watchdog (30 s)".to_string())) } else { None };
+            ("hang".to_string(), v, false)
+        }
+    }
+}
 
 pub fn run_op(ctx: &mut Ctx, op: &str) {
-    ctx.record(op.to_string(), "bad-op".into(), false);
+    let Some(parsed) = parse_op(op) else {
+        ctx.record(op.to_string(), "bad-op".into(), false);
+        return;
+    };
+    let (out, verdict, nontrivial): (String, Option<(String, String)>, bool) = match parsed {
+        Op::Rcb { d, iter, tol, threads, plen, ws, np, xs } => {
+            let lengths_ok = plen == ws.len() && plen == np;
+            let finite = xs.iter().all(|v| v.is_finite());
+            let x: Vec<f32> = xs.iter().map(|v| *v as f32).collect();
+            let res = if d == 2 {
+                run_rcb::<2>(iter, tol, threads, plen, ws, xs)
+            } else {
+                run_rcb::<3>(iter, tol, threads, plen, ws, xs)
+            };
+            let (out, v, ok) = judge_partition(ctx, res, d, iter, lengths_ok, finite, &x);
+            ctx.count(&format!("rcb_{}", out.split(' ').next().unwrap_or("")));
+            (out, v, ok && np >= 2 && iter >= 1)
+        }
+        Op::Rib { d, iter, tol, threads, n, ws, orig, rot } => {
+            let finite = orig.iter().all(|v| v.is_finite());
+            match frame(d, &orig) {
+                Caught::Panic(m) => {
+                    ctx.count("rib_frame_panic");
+                    let v = if finite { Some((panic_sig(&m), m.clone())) } else { None };
+                    (format!("panic {}", m), v, false)
+                }
+                Caught::Hang => unreachable!(),
+                Caught::Ok(fr) => {
+                    let fr = fr.unwrap_or_default();
+                    let same = fr.len() == rot.len() && fr.iter().zip(&rot).all(|(a, b)| a.to_bits() == b.to_bits());
+                    if !same {
+                        ctx.count("rib_frame-mismatch");
+                        ("frame-mismatch".to_string(), None, false)
+                    } else {
+                        let x: Vec<f32> = rot.iter().map(|v| *v as f32).collect();
+                        let res = run_rib(d, iter, tol, 1, &ws, &orig);
+                        let ids1 = match &res {
+                            Caught::Ok((St::Ok, ids)) => Some(ids.clone()),
+                            _ => None,
+                        };
+                        let (out, v, ok) = judge_partition(ctx, res, d, iter, true, finite, &x);
+                        ctx.count(&format!("rib_{}", out.split(' ').next().unwrap_or("")));
+                        if threads > 1 {
+                            // another property's business: only counted
+                            let again = match run_rib(d, iter, tol, threads, &ws, &orig) {
+                                Caught::Ok((St::Ok, ids)) => Some(ids),
+                                _ => None,
+                            };
+                            ctx.count(if again == ids1 { "rib_pool_same" } else { "rib_pool_differs" });
+                        }
+                        (out, v, ok && n >= 2 && iter >= 1)
+                    }
+                }
+            }
+        }
+        Op::Reorder { d, coord, pivot, n, ws, xs } => {
+            let res = if d == 2 {
+                run_reorder::<2>(&xs, &ws, pivot, coord)
+            } else {
+                run_reorder::<3>(&xs, &ws, pivot, coord)
+            };
+            match res {
+                Caught::Ok((c2, w2, ids, split)) => {
+                    let mut v = None;
+                    let mut out = format!("ok {} | {}", split, join(&ids));
+                    if pivot >= n {
+                        v = Some(("reorder-no-panic".to_string(), format!("pivot {} >= n {} did not panic", pivot, n)));
+                    } else if !is_permutation(&ids, n) || split > n {
+                        v = Some(("reorder-not-permutation".to_string(), format!("ids {:?} split {}", ids, split)));
+                    } else {
+                        let soa_ok = c2.len() == d
+                            && w2.len() == n
+                            && (0..n).all(|k| {
+                                w2[k] == ws[ids[k]]
+                                    && (0..d).all(|c| {
+                                        c2[c].len() == n && c2[c][k].to_bits() == xs[ids[k] * d + c].to_bits()
+                                    })
+                            });
+                        let pv = xs[pivot * d + coord];
+                        let bad = (0..n).find(|&k| (xs[ids[k] * d + coord] < pv) != (k < split));
+                        if !soa_ok {
+                            out = "soa-mismatch".to_string();
+                            v = Some((
+                                "reorder-soa-mismatch".to_string(),
+                                "returned coordinates/weights are not the originals permuted by the ids".to_string(),
+                            ));
+                        } else if let Some(k) = bad {
+                            v = Some((
+                                "reorder-not-partition".to_string(),
+                                format!(
+                                    "position {} (item {}, value {:?}) is on the wrong side of pivot value {:?}, split {}",
+                                    k,
+                                    ids[k],
+                                    xs[ids[k] * d + coord],
+                                    pv,
+                                    split
+                                ),
+                            ));
+                        }
+                    }
+                    ctx.count("reorder_ok");
+                    let nt = v.is_none() && n >= 2;
+                    (out, v, nt)
+                }
+                Caught::Panic(m) => {
+                    let v = if pivot < n { Some((panic_sig(&m), m.clone())) } else { None };
+                    ctx.count("reorder_panic");
+                    (format!("panic {}", m), v, false)
+                }
+                Caught::Hang => unreachable!(),
+            }
+        }
+        Op::Split { d, coord, tol, min, max, n, ws, xs } => {
+            let res = if d == 2 {
+                run_split::<2>(&xs, &ws, coord, tol, min, max)
+            } else {
+                run_split::<3>(&xs, &ws, coord, tol, min, max)
+            };
+            let finite = xs.iter().all(|v| v.is_finite()) && min.is_finite() && max.is_finite();
+            match res {
+                Caught::Ok((ids, split, wl, pos)) => {
+                    let out = format!("ok {} {} {:x} | {}", split, wl, pos.to_bits(), join(&ids));
+                    let mut v = None;
+                    if !is_permutation(&ids, n) || split > n {
+                        v = Some(("split-not-permutation".to_string(), format!("ids {:?} split {}", ids, split)));
+                    } else {
+                        let val = |k: usize| xs[ids[k] * d + coord];
+                        let l = (0..split).map(val).fold(f32::NEG_INFINITY, f32::max);
+                        let r = (split..n).map(val).fold(f32::INFINITY, f32::min);
+                        if split > 0 && split < n && !(l < r) {
+                            v = Some((
+                                "split-not-separated".to_string(),
+                                format!("max of the left side {:?} >= min of the right side {:?}", l, r),
+                            ));
+                        }
+                        ctx.count(if split == 0 {
+                            "split_left_empty"
+                        } else if split == n {
+                            "split_right_empty"
+                        } else {
+                            "split_two_sided"
+                        });
+                    }
+                    let nt = v.is_none() && n >= 2;
+                    (out, v, nt)
+                }
+                Caught::Panic(m) => {
+                    ctx.count("split_panic");
+                    let v = if finite { Some((panic_sig(&m), m.clone())) } else { None };
+                    (format!("panic {}", m), v, false)
+                }
+                Caught::Hang => {
+                    ctx.count("split_hang");
+                    let v = if finite { Some(("hang".to_string(), "watchdog (30 s)".to_string())) } else { None };
+                    ("hang".to_string(), v, false)
+                }
+            }
+        }
+    };
+    let idx = ctx.record(op.to_string(), out, nontrivial);
+    if let Some((sig, what)) = verdict {
+        ctx.fail(idx, &sig, what);
+    }
+}
+
+// ------------------------------------------------------------------ generator
+
+/// never -0.0
+fn nz(x: f64) -> f64 {
+    if x == 0.0 {
+        0.0
+    } else {
+        x
+    }
+}
+
+fn nz32(x: f32) -> f32 {
+    if x == 0.0 {
+        0.0
+    } else {
+        x
+    }
+}
+
+fn unif(r: &mut Rng, lo: f64, hi: f64) -> f64 {
+    let u = (r.next() >> 11) as f64 / (1u64 << 53) as f64;
+    nz(lo + (hi - lo) * u)
+}
+
+const POINT_SHAPES: [&str; 7] = ["uniform", "duplicates", "collinear", "clustered", "grid", "outlier", "identical"];
+
+/// `n` points of dimension `d`, point-major
+fn gen_points(r: &mut Rng, shape: usize, n: usize, d: usize) -> Vec<f64> {
+    let mut xs: Vec<f64> = Vec::with_capacity(n * d);
+    match shape {
+        0 => {
+            for _ in 0..n * d {
+                xs.push(unif(r, -10.0, 10.0));
+            }
+        }
+        1 => {
+            // every coordinate from a small set of values
+            let m = 2 + r.usize(4);
+            let ints = r.chance(1, 2);
+            let vals: Vec<f64> =
+                (0..m).map(|_| if ints { r.range(-3, 3) as f64 } else { unif(r, -10.0, 10.0) }).collect();
+            for _ in 0..n * d {
+                xs.push(*r.pick(&vals));
+            }
+        }
+        2 => {
+            if r.chance(1, 2) {
+                // one free axis, the other coordinates fixed
+                let axis = r.usize(d);
+                let fixed: Vec<f64> = (0..d).map(|_| unif(r, -5.0, 5.0)).collect();
+                let ints = r.chance(1, 3);
+                for _ in 0..n {
+                    let t = if ints { r.range(-8, 8) as f64 } else { unif(r, -10.0, 10.0) };
+                    for c in 0..d {
+                        xs.push(if c == axis { t } else { fixed[c] });
+                    }
+                }
+            } else {
+                // the diagonal y = x (= z)
+                for _ in 0..n {
+                    let t = unif(r, -10.0, 10.0);
+                    for _ in 0..d {
+                        xs.push(t);
+                    }
+                }
+            }
+        }
+        3 => {
+            // a few centres plus tiny offsets: f32 rounding merges coordinates
+            let m = 2 + r.usize(3);
+            let centres: Vec<f64> = (0..m * d).map(|_| unif(r, -10.0, 10.0)).collect();
+            for _ in 0..n {
+                let c = r.usize(m);
+                for a in 0..d {
+                    let mag = 10f64.powf(unif(r, -7.0, -3.0));
+                    let off = if r.chance(1, 2) { mag } else { -mag };
+                    xs.push(nz(centres[c * d + a] + off));
+                }
+            }
+        }
+        4 => {
+            // integer lattice, shuffled
+            let mut side = 1usize;
+            while side.pow(d as u32) < n {
+                side += 1;
+            }
+            let total = side.pow(d as u32);
+            let mut cells: Vec<usize> = (0..total).collect();
+            r.shuffle(&mut cells);
+            let step = *r.pick(&[1.0f64, 0.5, 3.0]);
+            let off = r.range(-4, 4) as f64;
+            for &c in cells.iter().take(n) {
+                let mut c = c;
+                for _ in 0..d {
+                    xs.push(nz((c % side) as f64 * step + off));
+                    c /= side;
+                }
+            }
+        }
+        5 => {
+            for _ in 0..n * d {
+                xs.push(unif(r, 0.0, 1.0));
+            }
+            if n > 0 {
+                for _ in 0..1 + r.usize(2) {
+                    let i = r.usize(n);
+                    for c in 0..d {
+                        if c == 0 || r.chance(1, 2) {
+                            let mag = 10f64.powf(unif(r, 3.0, 6.0)).min(1e6);
+                            xs[i * d + c] = if r.chance(1, 2) { mag } else { -mag };
+                        }
+                    }
+                }
+            }
+        }
+        _ => {
+            let p: Vec<f64> =
+                if r.chance(1, 3) { vec![1.0; d] } else { (0..d).map(|_| unif(r, -10.0, 10.0)).collect() };
+            for _ in 0..n {
+                xs.extend_from_slice(&p);
+            }
+        }
+    }
+    xs
+}
+
+const WEIGHT_SHAPES: [&str; 5] = ["unit", "random", "one_heavy", "all_zero", "mostly_zero"];
+
+fn pick_weight_shape(r: &mut Rng) -> usize {
+    match r.usize(20) {
+        0..=5 => 0,
+        6..=11 => 1,
+        12..=14 => 2,
+        15..=16 => 3,
+        _ => 4,
+    }
+}
+
+fn gen_weights(r: &mut Rng, shape: usize, n: usize) -> Vec<i64> {
+    match shape {
+        0 => vec![1; n],
+        1 => (0..n).map(|_| r.range(0, 100)).collect(),
+        2 => {
+            let mut w = vec![1i64; n];
+            if n > 0 {
+                let i = r.usize(n);
+                w[i] = 1000 * n as i64;
+            }
+            w
+        }
+        3 => vec![0; n],
+        _ => (0..n).map(|_| if r.chance(1, 10) { r.range(1, 100) } else { 0 }).collect(),
+    }
+}
+
+fn pick_tol(r: &mut Rng) -> f64 {
+    if r.chance(9, 10) {
+        *r.pick(&TOLS)
+    } else {
+        unif(r, 0.0, 0.5)
+    }
+}
+
+/// 35 % tiny, 45 % small, 20 % large (of which ~15 % above 1000, i.e. 3 % of all cases)
+fn pick_n(r: &mut Rng, nmax: usize) -> usize {
+    match r.usize(100) {
+        0..=34 => r.usize(13),
+        35..=79 => 13 + r.usize(188),
+        _ => {
+            if r.chance(15, 100) {
+                1001 + r.usize(nmax - 1000)
+            } else {
+                201 + r.usize(800)
+            }
+        }
+    }
+}
+
+/// f32 coordinate arrays for the direct ops
+fn gen_f32_points(r: &mut Rng, shape: usize, n: usize, d: usize) -> Vec<f32> {
+    match shape {
+        // duplicates / clustered: go through the f64 shapes and round
+        0 => gen_points(r, 1, n, d).iter().map(|v| nz32(*v as f32)).collect(),
+        1 => gen_points(r, 0, n, d).iter().map(|v| nz32(*v as f32)).collect(),
+        2 => {
+            // few values, integers
+            let m = 1 + r.usize(4);
+            (0..n * d).map(|_| r.usize(m) as f32).collect()
+        }
+        3 => gen_points(r, 3, n, d).iter().map(|v| nz32(*v as f32)).collect(),
+        _ => gen_points(r, 5, n, d).iter().map(|v| nz32(*v as f32)).collect(),
+    }
+}
+
+const F32_SHAPES: [&str; 5] = ["duplicates", "uniform", "few_values", "clustered", "outlier"];
+
+fn emit_rib(ctx: &mut Ctx, d: usize, iter: usize, tol: f64, threads: usize, ws: &[i64], xs: &[f64]) -> bool {
+    match frame(d, xs) {
+        Caught::Ok(fr) => {
+            let rot = fr.unwrap_or_default();
+            if rot.len() != xs.len() || rot.iter().any(|v| !v.is_finite()) {
+                ctx.count("rib_skipped_degenerate_frame");
+                return false;
+            }
+            let op = format_rib(d, iter, tol, threads, ws, xs, &rot);
+            run_op(ctx, &op);
+            true
+        }
+        _ => {
+            ctx.count("rib_skipped_degenerate_frame");
+            false
+        }
+    }
+}
+
+pub fn generate(ctx: &mut Ctx) {
+    ctx.notes.push(
+        "all inputs have n < 4096 points (n <= 3000): the model is exact only below the rayon min_len of 4096"
+            .to_string(),
+    );
+    let quick = ctx.quick();
+
+    // ---- exhaustive: reorder over {0,1,2}^n x every pivot (D = 2, second coordinate 0)
+    let maxlen = if quick { 4usize } else { 5 };
+    let mut count = 0usize;
+    for len in 1..=maxlen {
+        let mut v = vec![0usize; len];
+        loop {
+            let xs: Vec<f32> = v.iter().flat_map(|&a| [a as f32, 0.0f32]).collect();
+            for pivot in 0..len {
+                let op = format_reorder(2, 0, pivot, &vec![1; len], &xs);
+                run_op(ctx, &op);
+                count += 1;
+            }
+            let mut i = 0;
+            while i < len {
+                if v[i] < 2 {
+                    v[i] += 1;
+                    break;
+                }
+                v[i] = 0;
+                i += 1;
+            }
+            if i == len {
+                break;
+            }
+        }
+    }
+    ctx.notes.push(format!(
+        "exhaustive sub-space (reorder): every array over {{0,1,2}} of length 1..={} x every pivot, D=2 (second coordinate 0), coord 0, unit weights: {} ops",
+        maxlen, count
+    ));
+    // ---- exhaustive: rcb on every ordered tuple (repetitions allowed) of 1..=4 lattice points of {0,1}^2
+    let iters: &[usize] = if quick { &[1, 2, 3] } else { &[0, 1, 2, 3, 4] };
+    let tols: &[f64] = if quick { &[0.0] } else { &[0.0, 0.5] };
+    let mut count = 0usize;
+    for len in 1..=4usize {
+        for code in 0..4usize.pow(len as u32) {
+            let mut xs = Vec::with_capacity(2 * len);
+            let mut c = code;
+            for _ in 0..len {
+                xs.push((c & 1) as f64);
+                xs.push(((c >> 1) & 1) as f64);
+                c >>= 2;
+            }
+            for &iter in iters {
+                for &tol in tols {
+                    let op = format_rcb(2, iter, tol, 1, len, &vec![1; len], len, &xs);
+                    run_op(ctx, &op);
+                    count += 1;
+                }
+            }
+        }
+    }
+    ctx.notes.push(format!(
+        "exhaustive sub-space (rcb): every ordered tuple (repetitions allowed) of 1..=4 points of the lattice {{0,1}}^2, unit weights, iter in {:?}, tolerance in {:?}: {} ops",
+        iters, tols, count
+    ));
+
+    // ---- Rib corner sizes
+    for n in 0..=2usize {
+        for d in [2usize, 3] {
+            let xs = gen_points(&mut ctx.rng, 0, n, d);
+            let iter = 1 + ctx.rng.usize(3);
+            ctx.count("rib_corner_n012");
+            emit_rib(ctx, d, iter, 0.05, 4, &vec![1; n], &xs);
+        }
+    }
+
+    // ---- random Rcb / Rib cases
+    let nmax = if quick { 1500 } else { 3000 };
+    for _ in 0..ctx.budget(500, 30000) {
+        let is_rib = ctx.rng.chance(1, 4);
+        let d = 2 + ctx.rng.usize(2);
+        let iter = ctx.rng.usize(7);
+        let tol = pick_tol(&mut ctx.rng);
+        let threads = *ctx.rng.pick(&THREADS);
+        let n = pick_n(&mut ctx.rng, nmax);
+        let shape = match ctx.rng.usize(20) {
+            0..=5 => 0,
+            6..=8 => 1,
+            9..=10 => 2,
+            11..=13 => 3,
+            14..=16 => 4,
+            17..=18 => 5,
+            _ => 6,
+        };
+        let wshape = pick_weight_shape(&mut ctx.rng);
+        let xs = gen_points(&mut ctx.rng, shape, n, d);
+        let ws = gen_weights(&mut ctx.rng, wshape, n);
+        debug_assert!(xs.iter().all(|v| v.is_finite() && v.abs() <= 1e6 && (*v != 0.0 || v.is_sign_positive())));
+        let emitted = if is_rib {
+            emit_rib(ctx, d, iter, tol, threads, &ws, &xs)
+        } else {
+            let op = format_rcb(d, iter, tol, threads, n, &ws, n, &xs);
+            run_op(ctx, &op);
+            true
+        };
+        if emitted {
+            ctx.count(if is_rib { "algo_rib" } else { "algo_rcb" });
+            ctx.count(&format!("shape_{}", POINT_SHAPES[shape]));
+            ctx.count(&format!("weights_{}", WEIGHT_SHAPES[wshape]));
+            ctx.count(&format!("dim_{}", d));
+            ctx.count(&format!("iter_{}", iter));
+            ctx.count(match n {
+                0..=12 => "n_0_12",
+                13..=200 => "n_13_200",
+                201..=1000 => "n_201_1000",
+                _ => "n_above_1000",
+            });
+        }
+    }
+
+    // ---- direct ops: reorder_split_scalar
+    for _ in 0..ctx.budget(300, 20000) {
+        let d = 2 + ctx.rng.usize(2);
+        let n = match ctx.rng.usize(10) {
+            0..=4 => 1 + ctx.rng.usize(8),
+            5..=8 => 1 + ctx.rng.usize(40),
+            _ => 1 + ctx.rng.usize(300),
+        };
+        let shape = ctx.rng.usize(3);
+        let xs = gen_f32_points(&mut ctx.rng, shape, n, d);
+        let wshape = pick_weight_shape(&mut ctx.rng);
+        let ws = gen_weights(&mut ctx.rng, wshape, n);
+        let coord = ctx.rng.usize(d);
+        let pivot = ctx.rng.usize(n);
+        ctx.count(&format!("reorder_shape_{}", F32_SHAPES[shape]));
+        let op = format_reorder(d, coord, pivot, &ws, &xs);
+        run_op(ctx, &op);
+    }
+
+    // ---- direct ops: par_rcb_split
+    for _ in 0..ctx.budget(300, 20000) {
+        let d = 2 + ctx.rng.usize(2);
+        let n = match ctx.rng.usize(10) {
+            0..=3 => ctx.rng.usize(9),
+            4..=7 => ctx.rng.usize(41),
+            _ => ctx.rng.usize(301),
+        };
+        let shape = ctx.rng.usize(5);
+        let xs = gen_f32_points(&mut ctx.rng, shape, n, d);
+        let wshape = pick_weight_shape(&mut ctx.rng);
+        let ws = gen_weights(&mut ctx.rng, wshape, n);
+        let coord = ctx.rng.usize(d);
+        let tol = pick_tol(&mut ctx.rng);
+        let col: Vec<f32> = (0..n).map(|i| xs[i * d + coord]).collect();
+        let dmin = col.iter().copied().fold(f32::INFINITY, f32::min);
+        let dmax = col.iter().copied().fold(f32::NEG_INFINITY, f32::max);
+        let (min, max) = if n == 0 {
+            ctx.count("split_interval_empty_input");
+            (0.0f32, 1.0f32)
+        } else {
+            match ctx.rng.usize(10) {
+                0..=6 => {
+                    ctx.count("split_interval_exact");
+                    (dmin, dmax)
+                }
+                7..=8 => {
+                    ctx.count("split_interval_loose");
+                    let a = unif(&mut ctx.rng, 0.0, 5.0) as f32;
+                    let b = unif(&mut ctx.rng, 0.0, 5.0) as f32;
+                    (nz32(dmin - a), nz32(dmax + b))
+                }
+                _ => {
+                    ctx.count("split_interval_not_covering");
+                    let a = col[ctx.rng.usize(n)];
+                    let b = col[ctx.rng.usize(n)];
+                    let (lo, hi) = if a <= b { (a, b) } else { (b, a) };
+                    if ctx.rng.chance(1, 2) {
+                        (lo, hi)
+                    } else {
+                        // strictly inside the data range
+                        let w = hi - lo;
+                        (nz32(lo + w * 0.25), nz32(hi - w * 0.25))
+                    }
+                }
+            }
+        };
+        ctx.count(&format!("split_shape_{}", F32_SHAPES[shape]));
+        let op = format_split(d, coord, tol, min, max, &ws, &xs);
+        run_op(ctx, &op);
+    }
+
+    // ---- malformed stream
+    for _ in 0..ctx.budget(40, 400) {
+        match ctx.rng.usize(4) {
+            0 | 1 => {
+                // rcb with inconsistent lengths
+                let d = 2 + ctx.rng.usize(2);
+                let np = ctx.rng.usize(6);
+                let mut nw = np;
+                let mut plen = np;
+                match ctx.rng.usize(3) {
+                    0 => plen = ctx.rng.usize(7),
+                    1 => nw = ctx.rng.usize(7),
+                    _ => {
+                        plen = ctx.rng.usize(7);
+                        nw = plen;
+                    }
+                }
+                let xs = gen_points(&mut ctx.rng, 0, np, d);
+                let ws = gen_weights(&mut ctx.rng, 1, nw);
+                let iter = ctx.rng.usize(4);
+                ctx.count("malformed_rcb_lengths");
+                let op = format_rcb(d, iter, 0.05, 1, plen, &ws, np, &xs);
+                run_op(ctx, &op);
+            }
+            2 => {
+                // reorder with pivot out of range
+                let d = 2 + ctx.rng.usize(2);
+                let n = ctx.rng.usize(6);
+                let xs = gen_f32_points(&mut ctx.rng, 2, n, d);
+                let pivot = n + ctx.rng.usize(3);
+                ctx.count("malformed_reorder_pivot");
+                let op = format_reorder(d, ctx.rng.usize(d), pivot, &vec![1; n], &xs);
+                run_op(ctx, &op);
+            }
+            _ => {
+                // reorder on no items
+                let d = 2 + ctx.rng.usize(2);
+                ctx.count("malformed_reorder_empty");
+                let op = format_reorder(d, ctx.rng.usize(d), 0, &[], &[]);
+                run_op(ctx, &op);
+            }
+        }
+    }
+}
+
+#[cfg(test)]
+mod tests {
+    use super::*;
+
+    fn sig(d: usize, k: usize, x: &[f32], ids: &[usize]) -> Option<String> {
+        let mut ctx = Ctx::new("C03", Tier::Quick, 1);
+        bisection_oracle(&mut ctx, d, k, x, ids).map(|v| v.0)
+    }
+
+    #[test]
+    fn oracle_accepts_and_rejects() {
+        let line = [0.0f32, 0.0, 1.0, 0.0, 2.0, 0.0, 3.0, 0.0];
+        assert_eq!(sig(2, 1, &line, &[0, 0, 1, 1]), None);
+        assert_eq!(sig(2, 1, &line, &[0, 1, 1, 1]), None);
+        assert_eq!(sig(2, 1, &line, &[0, 1, 0, 1]).as_deref(), Some("rcb-not-a-bisection"));
+        assert_eq!(sig(2, 1, &line, &[1, 1, 0, 0]).as_deref(), Some("rcb-not-a-bisection"));
+        assert_eq!(sig(2, 1, &line, &[0, 0, 1, 2]).as_deref(), Some("rcb-id-out-of-range"));
+        // second level splits on y: all y equal, so a split there is not strict
+        assert_eq!(sig(2, 2, &line, &[0, 1, 2, 3]).as_deref(), Some("rcb-not-a-bisection"));
+        assert_eq!(sig(2, 2, &line, &[0, 0, 2, 2]), None);
+        // needs the offset: leaves 1 and 2 (ids 0 and 1 after the minimum is subtracted)
+        assert_eq!(sig(2, 2, &[0.0, 0.0, 1.0, 0.0], &[0, 1]), None);
+        // but not in the other direction
+        assert_eq!(sig(2, 2, &[1.0, 0.0, 0.0, 0.0], &[0, 1]).as_deref(), Some("rcb-not-a-bisection"));
+        // equal points (-0.0 == 0.0) in two parts
+        assert_eq!(sig(2, 1, &[0.0, 1.0, -0.0, 1.0], &[0, 1]).as_deref(), Some("rcb-same-point-split"));
+        // 3-D: third level uses z
+        let pts = [0.0f32, 0.0, 0.0, 0.0, 0.0, 1.0];
+        assert_eq!(sig(3, 3, &pts, &[0, 1]), None);
+        assert_eq!(sig(3, 2, &pts, &[0, 1]).as_deref(), Some("rcb-not-a-bisection"));
+    }
 }
